@@ -647,7 +647,7 @@ func c13Controls() []core.Mutant {
 		{Name: "VM looks the location up with ip", File: "vm/vm.go", Old: "Location: program.Locations[vm.pp],", New: "Location: program.Locations[vm.ip],", Rule: "R13.6", Construct: "vm.(VM).Run"},
 		{Name: "checker error without location", File: "checker/checker.go", Old: "\t\tv.err = &file.Error{\n\t\t\tLocation: node.Location(),\n", New: "\t\tv.err = &file.Error{\n", Rule: "R13.4", Construct: "checker.(visitor).error"},
 		{Name: "string scanner fast path advances the column by a byte count", File: "parser/lexer/lexer.go", Old: "func (l *lexer) scanString(quote rune) (n int) {\n", New: "func (l *lexer) scanString(quote rune) (n int) {\n\tif i := strings.IndexRune(l.input[l.end:], quote); i > 0 && !strings.ContainsAny(l.input[l.end:l.end+i], \"\\\\\\n\") {\n\t\tl.end += i\n\t\tl.loc.Column += i\n\t\tn += i\n\t}\n", Rule: "R13.8", Construct: "scanString"},
-		{Name: "unary plus folded away for any operand", File: "optimizer/fold.go", Old: "\t\tcase \"+\":\n\t\t\tif i, ok := n.Node.(*IntegerNode); ok {", New: "\t\tcase \"+\":\n\t\t\tif _, isInt := n.Node.(*IntegerNode); !isInt {\n\t\t\t\tpatchWithType(n.Node, n.Node.Type())\n\t\t\t\treturn\n\t\t\t}\n\t\t\tif i, ok := n.Node.(*IntegerNode); ok {", Rule: "R13.7", Construct: "fold"},
+		{Name: "unary plus folded away for any operand", File: "optimizer/fold.go", Old: "\t\tcase \"+\":\n\t\t\tif i, ok := n.Node.(*IntegerNode); ok && plain(i) {", New: "\t\tcase \"+\":\n\t\t\tif _, isInt := n.Node.(*IntegerNode); !isInt {\n\t\t\t\tpatchWithType(n.Node, n.Node.Type())\n\t\t\t\treturn\n\t\t\t}\n\t\t\tif i, ok := n.Node.(*IntegerNode); ok && plain(i) {", Rule: "R13.7", Construct: "fold"},
 		{Name: "inRange comparison loses its location", File: "optimizer/in_range.go", Old: "\t\t\t\t\t\tge.SetLocation(n.Location())\n", New: "", Rule: "R13.2", Construct: "inRange"},
 		{Name: "node stack not popped", File: "compiler/compiler.go", Old: "\tdefer func() {\n\t\tc.nodes = c.nodes[:len(c.nodes)-1]\n\t}()\n", New: "", Rule: "R13.6", Construct: "node stack"},
 	}
